@@ -729,7 +729,7 @@ func (s *SquareBracket) Evaluation(
 	methodT := base.GetMethodT(ctx.GetFrame(), base.TypeToString(&lastT), "[]", false)
 	if methodT != nil && !t.IsBeforeSpace {
 		p.SkipToTargetToken("]")
-		p.SetLastEvaluatedT(methodT)
+		p.SetLastEvaluatedT(methodT.DeepCopy())
 
 		return nil
 	}
